@@ -35,15 +35,57 @@ CORPUS.append(
 REQUIRED = ["wBoot", "wGet", "wSend", "wFinish", "wAck", "dLaunch", "rForward"]
 
 
+def kill_scenarios(ctx: Ctx):
+    # ---- a worker process killed from outside between two calls: the worker is ONE persistent process, later calls of that
+    # worker must not silently run in another interpreter (they stay pending on the unchanged code: not judged here)
+    import json
+    import os
+    import subprocess
+    import sys
+
+    from .common import VERIF, InfraError
+
+    from .common import finish_json_child, start_json_child
+
+    bad = []
+    repo = os.environ.get("VERIF_REPO", "/repo")
+    procs = [((dd, nw), start_json_child(["vh.kill_runner", str(dd), str(nw)])) for dd, nw in ((1, 1), (0, 1), (1, 2))]
+    for (dd, nw), h in procs:
+        o = finish_json_child(h, 200)
+        if o is None:
+            raise InfraError("kill runner produced no output (disable_dependencies=%s workers=%s)" % (dd, nw))
+        if not os.path.realpath(o["pin"]).startswith(os.path.realpath(repo) + os.sep):
+            raise InfraError("kill runner imported executorlib from " + o["pin"])
+        ctx.case({"worker_killed_between_calls": True, "disable_dependencies": bool(dd), "workers": nw})
+        ctx.count("kill_scenarios")
+        old_pids = set(o["killed"])
+        moved = [r for r in o["after"] if isinstance(r, list) and r[0] not in old_pids]
+        if moved:
+            bad.append({"disable_dependencies": bool(dd), "workers": nw, "outcome": o})
+    ctx.oblige("block allocation: after a worker process was killed from outside no later call of that executor runs in another process "
+               "(a worker is one persistent process)", not bad)
+    if bad:
+        ctx.violation({"kind": "worker_respawned", "failing_input": True},
+                      {"what": "with block allocation, calls submitted after a worker process was killed ran in a NEW process: the worker is "
+                               "not one persistent process and the interpreter state of its earlier calls vanished silently", "cases": bad})
+
+
 def body(ctx: Ctx):
     if ctx.replay_file:
+        import json as _json
+
+        if "cases" in _json.load(open(ctx.replay_file)):
+            kill_scenarios(ctx)
+            return {"rule": "replay of the worker-killed-between-calls scenarios"}
         return sysprop.replay(ctx, "C11", ctx.replay_file)
     n = 90 if ctx.tier == "quick" else 900
     res = sysprop.campaign(ctx, "C11", PROFILE, n, CORPUS, REQUIRED)
+    kill_scenarios(ctx)
     res["rule"] = ("engine B: batches of 2-8 calls whose bodies read and increment an interpreter-global counter and report (pid, counter); "
                    "block executors with 1-3 workers and per-call executors, resolver on/off; oracles: per-call mode - every pid used once "
                    "and every counter 0; block mode - per pid the counters are 0,1,2,... and [enter, exit] intervals are disjoint; one "
-                   "worker - calls without futures execute in submission order; non-trivial = >=2 calls")
+                   "worker - calls without futures execute in submission order; non-trivial = >=2 calls; plus three fault scenarios in which the "
+                   "worker processes are killed between two calls")
     res["trusted_base_extra"] = sysprop.TRUST
     return res
 
